@@ -44,22 +44,36 @@ def cstate(s):
 
 
 # ---- building python objects from canonical forms ----
+_CTOR = {}
+
+
+def _ctor(ty):
+    if ty not in _CTOR:
+        cls = grid_object_registry[ty]
+        names = [n for n in list(inspect.signature(cls.__init__).parameters)[1:] if n not in ('args', 'kwargs')]
+        for n in names:
+            if n not in ('color', 'state', 'content'):
+                raise ValueError(f'unknown ctor parameter {n}')
+        _CTOR[ty] = (cls, tuple(names))
+    return _CTOR[ty]
+
+
+_COLORS = {c.value: c for c in Color}
+
+
 def mkobj(c):
     ty, st, col, content = c
-    cls = grid_object_registry[ty]
-    sig = inspect.signature(cls.__init__)
+    cls, names = _ctor(ty)
+    if not names:
+        return cls()
     kwargs = {}
-    for pname in list(sig.parameters)[1:]:
+    for pname in names:
         if pname == 'color':
-            kwargs[pname] = Color(col)
+            kwargs[pname] = _COLORS[col]
         elif pname == 'state':
             kwargs[pname] = cls.Status(st)
-        elif pname == 'content':
-            kwargs[pname] = mkobj(content)
-        elif pname in ('args', 'kwargs'):
-            continue
         else:
-            raise ValueError(f'unknown ctor parameter {pname}')
+            kwargs[pname] = mkobj(content)
     return cls(**kwargs)
 
 
